@@ -89,18 +89,18 @@ def random_diagram(rng, derived_keys=False, extras=False):
                                 where=rng.choice(('pkg', 'comp', 'comp'))))
     if rng.random() < 0.5:
         d.classes.append(bp.Cls('Elsewhere', 'KX', 99, [bp.Attr('Id', 'unique_id'), bp.Attr('n', 'integer')],
-                                [['Id']], where='comp2'))
+                                [['Id']], where=rng.choice(('comp2', 'comp2', 'direct2'))))
     if rng.random() < 0.5:
         # inside a component nested in the component under test (takes part in no relationship)
         d.classes.append(bp.Cls('Deep inside', 'KN', 98, [bp.Attr('Id', 'unique_id'), bp.Attr('m', 'string')],
-                                [['Id']], where=rng.choice(('nested', 'deep'))))
+                                [['Id']], where=rng.choice(('nested', 'deep', 'direct', 'direct-nested'))))
     numb = 0
     for _ in range(rng.randint(1, 5)):
         numb += rng.randint(1, 3)
         kind = rng.choice(('simple', 'simple', 'linked', 'subsuper'))
 
         def pick(where=None):
-            cs = [c for c in d.classes if c.where not in ('comp2', 'nested', 'deep') and (where is None or c.where == where)]
+            cs = [c for c in d.classes if c.where not in bp.ISOLATED and (where is None or c.where == where)]
             return rng.choice(cs) if cs else None
 
         def ends():
@@ -129,7 +129,7 @@ def random_diagram(rng, derived_keys=False, extras=False):
             if len(d.classes) < 2:
                 continue
             link = pick()
-            others = [c for c in d.classes if c is not link and c.where not in ('comp2', 'nested', 'deep') and (link.where != 'comp' or c.where == 'comp')]
+            others = [c for c in d.classes if c is not link and c.where not in bp.ISOLATED and (link.where != 'comp' or c.where == 'comp')]
             if not others:
                 continue
             one, other = rng.choice(others), rng.choice(others)
@@ -145,7 +145,7 @@ def random_diagram(rng, derived_keys=False, extras=False):
                 continue
             sup = pick()
             subs = [c for c in d.classes if c is not sup and (c.where == sup.where or sup.where == 'pkg' and False)]
-            subs = [c for c in d.classes if c is not sup and c.where == sup.where and c.where not in ('comp2', 'nested', 'deep')]
+            subs = [c for c in d.classes if c is not sup and c.where == sup.where and c.where not in bp.ISOLATED]
             if not subs:
                 continue
             chosen = rng.sample(subs, min(len(subs), rng.randint(1, 2)))
@@ -240,7 +240,7 @@ def edit(rng, d):
         if not free:
             return None
         c = rng.choice(free)
-        c.where = rng.choice([w for w in ('pkg', 'comp', 'comp2', 'nested', 'deep') if w != c.where])
+        c.where = rng.choice([w for w in ('pkg', 'comp') + bp.ISOLATED if w != c.where])
         return ('move', c.kl, c.where)
     return None
 
